@@ -133,6 +133,14 @@ void dsim_scenario() {
             with_stack(preset, [&](S &s) { return one_op(s, c0, dsim::flip(), 91); });
             if (dsim::cell_get(NLIVE)) dsim::fail("C19.not_returned", "stack storage: block not returned");
         }
+        {   // one storage object (block sized for a small frame) serves a large frame - heap fall-back, the shared state grows - and then a
+            // medium one that fits the NEW state but not the block it was given: it must go to the heap as well
+            std::size_t st = 0; int c_small = dsim::choose(2);
+            with_stack(st, [&](S &s) { return one_op(s, c_small, false, 80); });
+            bool s1 = dsim::flip(), s2 = dsim::flip();
+            with_stack(st, [&](S &s) { unsigned long a = one_op(s, 3, s1, 81); a += one_op(s, 2, s2, 82); return a; });
+            if (dsim::cell_get(NLIVE)) dsim::fail("C19.not_returned", "stack storage: block not returned");
+        }
         reuse_sequence<S>("stack", [&](auto fn) {
             S s(state);
             std::size_t want = s;
